@@ -338,3 +338,13 @@ package verifspec
 //@ func st.Ok_SecondPre
 //@ property S01
 //@   ensures result >= 0
+
+//@ func st.Bad_TwoIndexLine
+//@ property S01
+//@   requires 0 <= i && i < len(a)
+//@   ensures true
+//@ func st.Ok_TwoIndexLine
+//@ property S01
+//@   requires 0 <= i && i < len(a) && 0 <= j && j < len(a)
+//@   requires a[i] >= 0 && a[i] <= 1000 && a[j] >= 0 && a[j] <= 1000
+//@   ensures result >= 0
